@@ -23,6 +23,7 @@ import (
 	"os"
 	"strconv"
 	"strings"
+	"sync"
 	"testing"
 	"unsafe"
 
@@ -65,6 +66,7 @@ type machine interface {
 	apply(o op) (panicked string)
 	observe(k int, askHead bool) obs
 	ilayer() (caps []int, share [][]int) // slice only: capacity per register, offset distance of registers in one array
+	adopt(from machine)                  // takes over the registers of another machine of the same kind (persistent values: shared from then on)
 }
 
 type mach[F, A any] struct {
@@ -78,8 +80,9 @@ type mach[F, A any] struct {
 	il     func(regs [nregs]F) ([]int, [][]int)
 }
 
-func (m *mach[F, A]) name() string { return m.nm }
-func (m *mach[F, A]) mon() string  { return m.mn }
+func (m *mach[F, A]) adopt(from machine) { m.regs = from.(*mach[F, A]).regs }
+func (m *mach[F, A]) name() string       { return m.nm }
+func (m *mach[F, A]) mon() string        { return m.mn }
 func (m *mach[F, A]) reset() {
 	for i := range m.regs {
 		m.regs[i] = m.tr.New()
@@ -196,7 +199,25 @@ func encCat(s string) any {
 
 const linMod = 1000003 // SeqADT.tla: LinMod
 
+// machines returns the machines named in VERIF_MACH (a comma-separated list; empty: all of them).
 func machines() []machine {
+	all := allMachines()
+	only := vio.Env("VERIF_MACH", "")
+	if only == "" {
+		return all
+	}
+	out := []machine{}
+	for _, m := range all {
+		for _, n := range strings.Split(only, ",") {
+			if m.name() == n {
+				out = append(out, m)
+			}
+		}
+	}
+	return out
+}
+
+func allMachines() []machine {
 	lin := monoid.FromOp(1, func(x, y int) int { return (2*x + y) % linMod })
 	cat := monoid.FromOp("^", func(x, y string) string { return x + y })
 	id := func(x int) int { return x }
@@ -403,13 +424,26 @@ type step struct {
 // bookkeeping of the lengths the script implies (which registers may be asked for their Head).
 func record(script []op, follow bool) map[string]any {
 	ms := machines()
+	combos := combosOf(ms, true)
+	mlen := [nregs]int{}
+	steps := play(ms, &mlen, script)
+	return map[string]any{"combos": combos, "steps": steps, "follow": follow}
+}
+
+func combosOf(ms []machine, reset bool) []map[string]any {
 	combos := []map[string]any{}
 	for _, m := range ms {
-		m.reset()
+		if reset {
+			m.reset()
+		}
 		caps, _ := m.ilayer()
 		combos = append(combos, map[string]any{"name": m.name(), "mon": m.mon(), "slice": caps != nil})
 	}
-	mlen := [nregs]int{}
+	return combos
+}
+
+// play applies a script to a set of machines and observes every register of every machine after every step.
+func play(ms []machine, mlen *[nregs]int, script []op) []step {
 	steps := []step{}
 	for _, o := range script {
 		switch o.Op {
@@ -452,7 +486,102 @@ func record(script []op, follow bool) map[string]any {
 			break
 		}
 	}
-	return map[string]any{"combos": combos, "steps": steps, "follow": follow}
+	return steps
+}
+
+// TestConcurrent: the sequences are persistent values, so goroutines that go on from a common ancestor - each with its own
+// registers - must each see exactly what they would see alone.  A common prefix is played on one set of machines, its
+// registers are handed to four further sets, and four goroutines play their own scripts (Cons onto the shared sequences and
+// onto what they built from them, Tail, New) at once.  One record per goroutine: the prefix followed by its own steps -
+// a sequential history, judged by the same trace specification (P level only: follow = false).
+func TestConcurrent(t *testing.T) {
+	if vio.Env("VERIF_MODE", "") != "conc" {
+		t.Skip()
+	}
+	out, err := vio.Create(vio.Env("VERIF_OUT", ""))
+	if err != nil {
+		t.Fatal(err)
+	}
+	defer out.Close()
+	rng := rand.New(rand.NewSource(int64(vio.EnvInt("VERIF_SEED", 1))))
+	rounds, k, n := vio.EnvInt("VERIF_N", 6), 4, 0
+	for round := 0; round < rounds; round++ {
+		base := machines()
+		combos := combosOf(base, true)
+		mlen := [nregs]int{}
+		prefix := []op{{Op: "new", I: 1, Xs: []int{1, 2, 3}}, {Op: "cons", I: 2, J: 1, X: 2}, {Op: "cons", I: 3, J: 2, X: 1}}
+		pre := play(base, &mlen, prefix)
+		sets := make([][]machine, k)
+		scripts := make([][]op, k)
+		bursts := make([][]op, k)
+		for g := 0; g < k; g++ {
+			sets[g] = machines()
+			for mi := range sets[g] {
+				sets[g][mi].adopt(base[mi])
+			}
+			ml := mlen
+			// a burst first: 300 Cons in a row onto one chain that starts at a shared sequence, applied machine by machine in
+			// a tight loop and observed only afterwards (two goroutines that allocate from something they share meet here)
+			from := 1 + rng.Intn(nregs)
+			for j := 0; j < 300; j++ {
+				o := op{Op: "cons", I: 3, J: 3, X: 1 + rng.Intn(3), Xs: []int{}, Quiet: true}
+				if j == 0 {
+					o.J = from
+				}
+				ml[2] = ml[o.J-1] + 1
+				bursts[g] = append(bursts[g], o)
+			}
+			for j := 0; j < 6; j++ {
+				o := op{I: 1 + rng.Intn(nregs), J: 1 + rng.Intn(nregs), Xs: []int{}}
+				switch r := rng.Intn(10); {
+				case r < 7:
+					o.Op, o.X = "cons", 1+rng.Intn(3)
+					ml[o.I-1] = ml[o.J-1] + 1
+				case r < 8:
+					o.Op, o.J, o.Xs = "new", 0, []int{1 + rng.Intn(3), 1 + rng.Intn(3)}
+					ml[o.I-1] = 2
+				default:
+					if ml[o.J-1] == 0 {
+						continue
+					}
+					o.Op = "tail"
+					ml[o.I-1] = ml[o.J-1] - 1
+				}
+				scripts[g] = append(scripts[g], o)
+			}
+		}
+		own := make([][]step, k)
+		var start, done sync.WaitGroup
+		start.Add(1)
+		for g := 0; g < k; g++ {
+			done.Add(1)
+			go func() {
+				defer done.Done()
+				ml := mlen
+				quiet := []step{}
+				for _, o := range bursts[g] {
+					ml[o.I-1] = ml[o.J-1] + 1
+					quiet = append(quiet, step{Op: o.Op, I: o.I, J: o.J, X: o.X, Xs: o.Xs, Obs: []comboObs{}})
+				}
+				start.Wait()
+				for _, m := range sets[g] {
+					for _, o := range bursts[g] {
+						if p := m.apply(o); p != "" { // (a panic inside the burst shows in the first observed step: the register is not what it should be)
+							break
+						}
+					}
+				}
+				own[g] = append(quiet, play(sets[g], &ml, scripts[g])...)
+			}()
+		}
+		start.Done()
+		done.Wait()
+		for g := 0; g < k; g++ {
+			out.Put(map[string]any{"combos": combos, "steps": append(append([]step{}, pre...), own[g]...), "follow": false, "conc": k})
+			n++
+		}
+	}
+	out.Put(map[string]any{"t": "stats", "traces": n})
 }
 
 func TestRandom(t *testing.T) {
